@@ -69,6 +69,13 @@ class Contract:
                     raise Unsupported(f"contract {self.name}: missing argument {p}")
         return b
 
+    kwargs_domain = None      # None: any keyword; else the keyword names (besides `params`) the contract is stated for
+
+    def covers(self, kwargs):
+        if self.kwargs_domain is None:
+            return True
+        return all(k in self.params or k in self.kwargs_domain for k in kwargs)
+
     def requires(self, cx):
         return []
 
